@@ -47,4 +47,18 @@ Qed.
 Lemma src_inverse m : s_inverse m = inverse m.
 Proof. reflexivity. Qed.
 
+(* all of them at once: what a Props file pins as  model_is_source_<property>  *)
+Definition model_is_source_Solve : Prop :=
+  (forall m c s, s_max_abs_in_column m c s = max_abs_in_column m c s) /\
+  (forall m x, s_backsolve m x = backsolve m x) /\
+  (forall m x k, s_partial_pivot m x k = partial_pivot m x k) /\
+  (forall m x, s_gauss_with_pivot m x = gauss_with_pivot m x) /\
+  (forall m b, s_solve_basic m b = solve_basic m b) /\
+  (forall m, s_lu_decomp_in_place m = lu_decomp m) /\
+  (forall m b, s_solve_lu m b = solve_lu m b) /\
+  (forall m, s_determinant m = determinant m) /\
+  (forall m, s_inverse m = inverse m).
+Lemma model_is_source_Solve_lemma : model_is_source_Solve.
+Proof. exact (conj src_max_abs_in_column (conj src_backsolve (conj src_partial_pivot (conj src_gauss_with_pivot (conj src_solve_basic (conj src_lu_decomp_in_place (conj src_solve_lu (conj src_determinant src_inverse)))))))). Qed.
+
 End SrcEqSolve.
